@@ -1,4 +1,5 @@
 import Jp.Model.Glue
+import Jp.Model.Toml
 import Jp.Spec.Tree
 /-
   jpdriver — the model behind the line protocol of /verif/PROTOCOL.md.
@@ -231,6 +232,24 @@ def writeRStr : Res ResolveErr Unit → String
   | .err e => s!"err({kindOfResolveErr e})"
   | .panic _ => "panic"
 
+/-! ## the separately written json / toml copies (the model mirrors both; `Jp.C09.toml_*_eq` proves them equal) -/
+
+def resolveB : Backend → Val → Bytes → Res ResolveErr (Loc × Val)
+  | .json => resolve
+  | .toml => Toml.resolve
+def resolveMutB : Backend → Val → Bytes → Res ResolveErr (Loc × Val)
+  | .json => resolveMut
+  | .toml => Toml.resolveMut
+def writeThroughB : Backend → Val → Bytes → Val → Val × Res ResolveErr Unit
+  | .json => writeThrough
+  | .toml => Toml.writeThrough
+def assignB : Backend → Val → Bytes → Val → Val × Res AssignErr (Option Val)
+  | .json => assign
+  | .toml => Toml.assign
+def deleteB : Backend → Val → Bytes → Val × Res Unit (Option Val)
+  | .json => delete .json
+  | .toml => Toml.delete
+
 /-! ## histories -/
 
 def parseBufStep (s : String) : Option BufOp :=
@@ -283,10 +302,10 @@ def parseTreeStep (s : String) : Option TreeOp :=
   | _ => none
 
 def treeStep (b : Backend) (doc : Val) : TreeOp → Val × String
-  | .assign p v => let (d, r) := assign doc p v; (d, assignRStr r)
-  | .delete p => let (d, r) := delete b doc p; (d, deleteRStr r)
-  | .resolve p => (doc, resolveRStr (resolve doc p))
-  | .write p v => let (d, r) := writeThrough doc p v; (d, writeRStr r)
+  | .assign p v => let (d, r) := assignB b doc p v; (d, assignRStr r)
+  | .delete p => let (d, r) := deleteB b doc p; (d, deleteRStr r)
+  | .resolve p => (doc, resolveRStr (resolveB b doc p))
+  | .write p v => let (d, r) := writeThroughB b doc p v; (d, writeRStr r)
 
 /-- the same step on the reference tree store (`assignSpec`, `deleteSpec`, `walk`, `writeSpec`) -/
 def specTreeStep (b : Backend) (doc : Val) : TreeOp → Val × String
@@ -499,32 +518,32 @@ def step (line : String) : String :=
       let l := concat (concat p q) r
       pure s!"cc={xhex l} assoc={boolStr (l == concat p (concat q r))}"
     | ["resolve", b, d, p] => do
-      let _ ← backendOf b
+      let b ← backendOf b
       let d ← parseDoc d
       let p ← parseX p
-      pure (resolveLine (resolve d p) d p)
+      pure (resolveLine (resolveB b d p) d p)
     | ["resolve_mut", b, d, p] => do
-      let _ ← backendOf b
+      let b ← backendOf b
       let d ← parseDoc d
       let p ← parseX p
-      pure (resolveLine (resolveMut d p) d p)
+      pure (resolveLine (resolveMutB b d p) d p)
     | ["write", b, d, p, v] => do
-      let _ ← backendOf b
+      let b ← backendOf b
       let d ← parseDoc d
       let p ← parseX p
       let v ← parseDoc v
-      let (d', r) := writeThrough d p v
-      let rb := match resolve d' p with
+      let (d', r) := writeThroughB b d p v
+      let rb := match resolveB b d' p with
         | .ok (_, x) => docStr x
         | .err e => s!"err({kindOfResolveErr e})"
         | .panic _ => "panic"
       pure s!"r={writeRStr r} doc={docStr d'} rb={rb}"
     | ["assign", b, d, p, v] => do
-      let _ ← backendOf b
+      let b ← backendOf b
       let d ← parseDoc d
       let p ← parseX p
       let v ← parseDoc v
-      let (d', r) := assign d p v
+      let (d', r) := assignB b d p v
       let loc := match r with
         | .err e => locateFields p e.position e.offset (payloadOfAssignErr e) (e.label p)
         | _ => noLocateFields
@@ -535,7 +554,7 @@ def step (line : String) : String :=
       let b ← backendOf b
       let d ← parseDoc d
       let p ← parseX p
-      let (d', r) := delete b d p
+      let (d', r) := deleteB b d p
       let (sd, sr) := deleteSpec b d (tokens p)
       pure s!"r={deleteRStr r} doc={docStr d'} spec_r={someStr (sr.map docStr)} spec_doc={docStr sd}"
     | "tree_hist" :: b :: d :: steps => do
